@@ -85,7 +85,8 @@ class Job:
     """One harness executable: (source, part, config, compiler, std, variant)."""
 
     def __init__(self, src, cfg, compiler='g++', std=11, variant='plain', part=0,
-                 extra=(), libs=(), extra_srcs=(), label=None, autodetect=False, raw_flags=None):
+                 extra=(), libs=(), extra_srcs=(), label=None, autodetect=False, raw_flags=None, syntax_only=False,
+                 incdirs=(), cflags_override=None):
         self.src = src
         self.cfg = frozenset(cfg)
         self.compiler = compiler
@@ -97,6 +98,9 @@ class Job:
         self.extra_srcs = list(extra_srcs)
         self.autodetect = autodetect
         self.raw_flags = raw_flags
+        self.syntax_only = syntax_only
+        self.incdirs = list(incdirs)
+        self.cflags_override = cflags_override
         self.label = label or '%s/%s/%s-c++%d/%s/p%d' % (
             os.path.splitext(os.path.basename(src))[0], configs.name(self.cfg), compiler, std, variant, part)
         self.exe = None
@@ -107,14 +111,14 @@ class Job:
 
     def cmd(self, out):
         c = [self.compiler, '-std=c++%d' % self.std, '-I' + os.path.join(REPO, 'include'),
-             '-I' + HARNESS, '-w']
+             '-I' + HARNESS, '-w'] + ['-I' + d for d in self.incdirs]
         if self.raw_flags is not None:
             c += self.raw_flags
         elif self.autodetect:
             c += ['-DAVEL_AUTO_DETECT'] + configs.flags(self.cfg)
         else:
             c += configs.defines(self.cfg) + configs.flags(self.cfg)
-        v = list(VARIANT_FLAGS[self.variant])
+        v = list(VARIANT_FLAGS[self.variant]) if self.cflags_override is None else list(self.cflags_override)
         if self.compiler.startswith('clang'):
             v = [f for f in v if f != '-frounding-math']
             if self.variant == 'san':
@@ -123,7 +127,10 @@ class Job:
         c += ['-DVK_PART=%d' % self.part, '-DVK_CFG="%s"' % configs.name(self.cfg)]
         c += self.extra
         c += [os.path.join(HARNESS, self.src)] + [os.path.join(HARNESS, s) for s in self.extra_srcs]
-        c += ['-o', out] + self.libs
+        if self.syntax_only:
+            c += ['-fsyntax-only']
+        else:
+            c += ['-o', out] + self.libs
         return c
 
     def key(self):
